@@ -156,13 +156,17 @@ theorem parseRatio_print (H : ScaledRoundTrip) (g : Nat) (hg : g ≤ 1073741823)
   simp only [hnn, if_false, List.nil_append, Int.natAbs_natCast, List.append_assoc, List.cons_append]
   have hne : natChars (g / 65536) ≠ [] := by
     unfold natChars; simp [natDigits_ne_nil]
-  unfold parseRatio
-  cases hs : natChars (g / 65536) ++ '.' :: List.map digitChar (fracDigits (g % 65536)) with
-  | nil => simp at hs
-  | cons c cs =>
-    simp only []
-    rw [← hs]
-    unfold natChars
+  have hne2 := natDigits_ne_nil (g / 65536)
+  unfold parseRatio natChars
+  cases hd : natDigits (g / 65536) with
+  | nil => exact absurd hd hne2
+  | cons d ds =>
+    simp only [List.map_cons, List.cons_append, digitChar_ne d '-' (by decide), if_false]
+    have e : digitChar d :: (List.map digitChar ds ++ '.' :: List.map digitChar (fracDigits (g % 65536)))
+        = List.map digitChar (natDigits (g / 65536)) ++ '.' :: List.map digitChar (fracDigits (g % 65536)) := by
+      rw [hd]; rfl
+    rw [e]
+    unfold parseRatioAbs
     rw [splitDot_digits]
     have := parseI32_natChars (g / 65536) (by omega)
     unfold natChars at this
